@@ -423,11 +423,11 @@ func (vc *VC) declareLocal(st *State, id *ast.Ident, v *Value) {
 	if vr != nil && vc.boxed[vr] && vc.curInfo.Defs[id] != nil {
 		ref := vc.allocRef(st, "cell_"+id.Name)
 		st.env[obj] = intV(ref, nil)
-		vc.store(st, vc.derefLoc(ref, vr.Type()), v)
+		vc.store(st, vc.boxLoc(vr, ref), v)
 		return
 	}
 	if vr != nil && vc.boxed[vr] {
-		vc.store(st, vc.derefLoc(st.env[obj].Term, vr.Type()), v)
+		vc.store(st, vc.boxLoc(vr, st.env[obj].Term), v)
 		return
 	}
 	st.env[obj] = v
@@ -553,7 +553,7 @@ func (vc *VC) execReturn(st *State, x *ast.ReturnStmt) []Outcome {
 	for i, o := range fr.results {
 		if o != nil && i < len(rets) {
 			if vr, _ := o.(*types.Var); vr != nil && vc.boxed[vr] {
-				vc.store(st, vc.derefLoc(st.env[o].Term, vr.Type()), rets[i])
+				vc.store(st, vc.boxLoc(vr, st.env[o].Term), rets[i])
 			} else {
 				st.env[o] = rets[i]
 			}
@@ -564,7 +564,7 @@ func (vc *VC) execReturn(st *State, x *ast.ReturnStmt) []Outcome {
 
 func (vc *VC) evalIdentObj(st *State, o types.Object) *Value {
 	if vr, _ := o.(*types.Var); vr != nil && vc.boxed[vr] {
-		return vc.load(st, vc.derefLoc(st.env[o].Term, vr.Type()))
+		return vc.load(st, vc.boxLoc(vr, st.env[o].Term))
 	}
 	v := st.env[o]
 	if v == nil {
@@ -1035,7 +1035,7 @@ func (vc *VC) addAllocMono(st *State, old, nw string) {
 func (vc *VC) havocAllHeap(st *State) {
 	ghost := map[string]string{}
 	for _, comp := range sortedKeys(vc.compSort) {
-		if strings.HasPrefix(comp, "ghost:") {
+		if strings.HasPrefix(comp, "ghost:") || strings.HasPrefix(comp, "local:") {
 			ghost[comp] = vc.heapGet(st, comp, vc.compSort[comp])
 		}
 	}
